@@ -1,5 +1,7 @@
 """C04 - PDF417: every accepted text decodes back to exactly that text.
-model phase : structural laws of the 3 x 929 pinned patterns, start/stop, GF(929) generator, compaction conversions, dimension obligations (MC_PDF417)
+model phase : structural laws of the 3 x 929 pinned patterns, start/stop, GF(929) generator, compaction conversions, dimension obligations (MC_PDF417);
+              encoder model (transcription of highlevelEncode / encodeText / encodeBinary / encodeNumeric) || compaction automaton for all strings over
+              representative bytes (MC_PDFText), incl. the negative design (pad in punctuation sub-mode not tracked) that must violate RoundTrip
 trace valid.: every image is read by the reference reader of PDF417.tla (TracePDF)"""
 import vlib, onedim, gen
 
@@ -91,7 +93,10 @@ def describe(ev, why):
 def run(tier):
     chk = vlib.Check("C04", tier)
     quick = tier == "quick"
-    chk.add_model([dict(module="MC_PDF417.tla", cfg="MC_PDF417.cfg", workers=8, timeout=3000, heap="6g")])
+    chk.add_model([dict(module="MC_PDF417.tla", cfg="MC_PDF417.cfg", workers=4, timeout=3000, heap="6g"),
+                   dict(module="MC_PDFText.tla", cfg="MC_PDFText_quick.cfg" if quick else "MC_PDFText_thorough.cfg", workers=8, timeout=5000, heap="6g"),
+                   dict(module="MC_PDFText.tla", cfg="MC_PDFText_prefix.cfg", workers=2, timeout=3000, heap="4g"),
+                   dict(module="MC_PDFText.tla", cfg="MC_PDFText_nofix.cfg", workers=2, timeout=3000, heap="4g", expect_violation="RoundTrip")])
     drive = vlib.build_harness(chk.work)
     jobs = pdf_jobs(chk.rng, quick)
     evs, extras = onedim.judge(chk, drive, jobs, "TracePDF", "TracePDF.cfg", 14 if quick else 16, wanted, heap="4g", timeout=6000, describe=describe)
